@@ -59,7 +59,7 @@ mutual
 end
 
 def errName (code : Nat) : String :=
-  match PyErr.ofCode code with
+  match Dsl.PyErr.ofCode code with
   | some e => e.pyName
   | none => s!"Code{code}"
 
@@ -177,7 +177,7 @@ def pMethod : P Method := fun ts => do
   | "split" => pure (.split, ts) | "join" => pure (.join, ts)
   | _ => none
 
-def pPyErr : P PyErr := fun ts => do
+def pPyErr : P Dsl.PyErr := fun ts => do
   let (t, ts) ← pTok ts
   match t with
   | "typeError" => pure (.typeError, ts) | "zeroDivisionError" => pure (.zeroDivisionError, ts)
@@ -247,6 +247,7 @@ mutual
         let (h, ts) ← pBool ts
         let (k, ts) ← pExpr fuel ts
         pure (.thresholdOf f n h k, ts)
+      | "loadedForm" => do let (e, ts) ← pExpr fuel ts; pure (.loadedForm e, ts)
       | "instance" => pure (.instance, ts)
       | "notImpl" => do let (xs, ts) ← pList (pExpr fuel) ts; pure (.notImpl xs, ts)
       | "tupleE" => do let (xs, ts) ← pList (pExpr fuel) ts; pure (.tuple xs, ts)
@@ -306,7 +307,7 @@ mutual
         pure (.forS xs it b, ts)
       | "ret" => do let (e, ts) ← pExpr fuel ts; pure (.ret e, ts)
       | "expr" => do let (e, ts) ← pExpr fuel ts; pure (.expr e, ts)
-      | "assertS" => do let (e, ts) ← pExpr fuel ts; pure (.assertS e, ts)
+      | "assertS" => do let (e, ts) ← pExpr fuel ts; let (m, ts) ← pExpr fuel ts; pure (.assertS e m, ts)
       | "append" => do let (x, ts) ← pStr ts; let (e, ts) ← pExpr fuel ts; pure (.append x e, ts)
       | "continueS" => pure (.continueS, ts)
       | "breakS" => pure (.breakS, ts)
